@@ -604,3 +604,57 @@ _run_before_r6 = run
 def run(ctx):
     _run_before_r6(ctx)
     r6_en_passant_reader(ctx)
+
+
+def r7_placement_and_rights_writers(ctx):
+    """pieces are placed on (file counter, rank index); castling rights are written only where reviewed"""
+    rid = "C12.R7"
+    ctx.rule(rid, "the placement reader sets a piece bit only from square_mask_from_index(file counter, rank index) - never a rank constant independent of the rank being decoded; and the castling-right flags are written only by the FEN reader's own assignments and by make / unmake (a new writer, e.g. a sanitiser, needs its squares reviewed)", floor=2)
+    prog = ctx.prog
+    cl = [k for k in prog.fns if k.startswith(B + "<Fen as FenParseExt>::parse_player_states::{closure")]
+    n_writes, bad = 0, []
+    for k in cl:
+        f = prog.fns[k]
+        ex = Exprs(f)
+        for b in f["blocks"]:
+            if b["cleanup"]:
+                continue
+            for s in b["stmts"]:
+                d, rv = s["dst"], s["rv"]
+                if d is None or "deref" not in d["p"] or rv["op"] != "bin" or rv["bop"] != "BitOr":
+                    continue
+                n_writes += 1
+                tr = ex.rvalue(rv)
+                calls = [x[1] for x in leaves(tr) if x[0] == "call"]
+                if not any(c.endswith("square_mask_from_index") for c in calls):
+                    bad.append((k, s["line"], show(tr)[:120], f))
+    ok = n_writes >= 1 and not bad
+    ctx.ob(rid, "placement|bits-from-(file, rank)-only", ok,
+           "" if ok else ("the placement reader sets piece bits from %s: a value that does not depend on the rank being decoded (a whole-rank constant puts the pieces on that rank wherever the text stands)" % [b_[2] for b_ in bad][:2] if bad else "no piece-bit write found in the placement reader's closures"),
+           ctx.where(bad[0][3], bad[0][1]) if bad else "", sample={"bit_writes": n_writes})
+    writers = set()
+    for k, f in prog.fns.items():
+        if f["crate"] != "inkayaku_board" or f.get("test"):
+            continue
+        for b in f["blocks"]:
+            if b["cleanup"]:
+                continue
+            for s in b["stmts"]:
+                d = s["dst"]
+                if d is not None and d["p"] and isinstance(d["p"][-1], dict) and d["p"][-1].get("name") in ("king_side_castle", "queen_side_castle"):
+                    writers.add(k)
+    REVIEWED = {B + "<Fen as FenParseExt>::parse_player_states": "the reader's own assignments (letters and conjuncts judged by R2)",
+                B + "Bitboard::make": "clears rights recorded in the move (C02.R5)", B + "Bitboard::unmake": "restores them (C03.R3)"}
+    new = sorted(w for w in writers if w not in REVIEWED and not w.endswith("::default") and "Default" not in w)
+    ok = bool(writers & set(REVIEWED)) and not new
+    ctx.ob(rid, "castling-rights|reviewed-writers-only", ok,
+           "" if ok else "the castling-right flags are also written by %s: a function that changes rights outside the reader's assignments and make/unmake (for a sanitiser: check that black's king side is tested against h8 and queen side against a8 - 'right hand' and 'left hand' swap with the colour)" % [w.rsplit("::", 1)[-1] for w in new],
+           "", sample={"writers": sorted(w.rsplit("::", 2)[-1] for w in writers)})
+
+
+_run_before_r7 = run
+
+
+def run(ctx):
+    _run_before_r7(ctx)
+    r7_placement_and_rights_writers(ctx)
